@@ -87,9 +87,10 @@ Definition mko (pf : profile) (n : nat) (sq : bool) (m : smat) : obj K :=
 Definition mkn (pf : profile) (n : nat) (sq : bool) (m : smat) : newobj K :=
   @Build_newobj K pf n sq m.
 Definition pf (td : option string) (kids : list nat) (ig : bool) (eg : eig_kind) (cm : option nat) (pc sm it : bool)
-           (dg : option bool) : profile :=
+           (dg : option bool) (q1 q2 q3 : bool) : profile :=
   {| pf_td_name := td; pf_td_kids := kids; pf_chol_ignore := ig; pf_eig := eg; pf_cm_root := cm; pf_precond := pc;
-     pf_sum := sm; pf_iqld_to := it; pf_deleg := dg |}.
+     pf_sum := sm; pf_iqld_to := it; pf_deleg := dg; pf_iqld_norhs_raises := q1; pf_iqld_nologdet_raises := q2;
+     pf_lanczos_1x1_raises := q3 |}.
 Definition X (r v : bool) (ks : list (list key)) (b : list (nat * nat)) : expect :=
   {| x_raised := r; x_valid := v; x_keys := ks; x_bad := b |}.
 
